@@ -321,7 +321,7 @@ func (g *gen) anyScalar() *cz.Value {
 	case 5, 6:
 		return g.strValue(false, allTokens)
 	}
-	return &cz.Value{K: "junk", S: pickOf(g, []string{"tag", "bigint", "time", "struct", "ptr", "nilptr", "nilre", "func", "chan"})}
+	return &cz.Value{K: "junk", S: pickOf(g, []string{"tag", "bigint", "time", "struct", "ptr", "nilptr", "nilre", "func", "chan", "nil_wide", "nil_sub"})}
 }
 
 func (g *gen) anyValue(depth int) *cz.Value {
